@@ -333,6 +333,14 @@ func checkC12(c *Case, r *Rec) error {
 	in := string(c.Input)
 	out, _ := sanitizeSpec(c.Spec, in)
 	affected := 0
+	inputHasSandbox := false
+	for _, tk := range tokenize(in) {
+		if isOpenTag(tk) {
+			if _, ok := firstAttr(tk.Attr, "sandbox"); ok {
+				inputHasSandbox = true
+			}
+		}
+	}
 	for _, tk := range tokenize(out) {
 		if !isOpenTag(tk) || len(tk.Attr) == 0 {
 			continue
@@ -361,6 +369,9 @@ func checkC12(c *Case, r *Rec) error {
 				for _, a := range tk.Attr {
 					if a.Key == "sandbox" {
 						n++
+						if !inputHasSandbox && a.Val != "" {
+							return violation(out, "C12: the input carries no sandbox attribute at all, yet <iframe> is emitted with sandbox=%q instead of the empty (most restrictive) value", a.Val)
+						}
 						seen := map[string]bool{}
 						for _, f := range htmlFields(a.Val) {
 							if !m.sandbox[f] {
